@@ -30,6 +30,7 @@ import (
 	"strings"
 
 	googleproto "google.golang.org/protobuf/proto"
+	"google.golang.org/protobuf/reflect/protoreflect"
 
 	"github.com/projectcalico/calico/felix/proto"
 )
@@ -520,7 +521,11 @@ type DiffEntry struct {
 	ID     string   // key of the object inside its class
 	Kind   string   // "only-in-a", "only-in-b" or "differs"
 	Fields []string // for "differs": names of the top-level fields that differ (sorted)
-	Text   string   // human-readable rendering
+	// TiersOnlyDefaultAction: for endpoint diffs whose tier lists agree on names, policies and order
+	// and differ only in default_action, the names of the tiers whose default_action differs (the
+	// field is then reported as "<field>.default_action").
+	TiersOnlyDefaultAction []string
+	Text                   string // human-readable rendering
 }
 
 // Key is a stable identity of the kind of difference: class, kind and the differing field names.
@@ -534,18 +539,45 @@ func (d DiffEntry) Key() string {
 
 func (d DiffEntry) String() string { return d.Text }
 
-func differingFields(a, b googleproto.Message) []string {
-	var out []string
+func differingFields(a, b googleproto.Message) ([]string, []string) {
+	var out, tiers []string
 	ra, rb := a.ProtoReflect(), b.ProtoReflect()
 	fds := ra.Descriptor().Fields()
 	for i := 0; i < fds.Len(); i++ {
 		fd := fds.Get(i)
 		if ra.Has(fd) != rb.Has(fd) || !ra.Get(fd).Equal(rb.Get(fd)) {
-			out = append(out, string(fd.Name()))
+			name := string(fd.Name())
+			if fd.IsList() && fd.Message() != nil && fd.Message().Name() == "TierInfo" {
+				if names, ok := onlyDefaultActionDiffers(ra.Get(fd).List(), rb.Get(fd).List()); ok {
+					name += ".default_action"
+					tiers = append(tiers, names...)
+				}
+			}
+			out = append(out, name)
 		}
 	}
 	sort.Strings(out)
-	return out
+	sort.Strings(tiers)
+	return out, tiers
+}
+
+func onlyDefaultActionDiffers(la, lb protoreflect.List) ([]string, bool) {
+	if la.Len() != lb.Len() {
+		return nil, false
+	}
+	var names []string
+	for i := 0; i < la.Len(); i++ {
+		ta := googleproto.Clone(la.Get(i).Message().Interface()).(*proto.TierInfo)
+		tb := googleproto.Clone(lb.Get(i).Message().Interface()).(*proto.TierInfo)
+		if ta.DefaultAction != tb.DefaultAction {
+			names = append(names, ta.Name)
+		}
+		ta.DefaultAction, tb.DefaultAction = "", ""
+		if !googleproto.Equal(ta, tb) {
+			return nil, false
+		}
+	}
+	return names, true
 }
 
 func diffProtoMap[V googleproto.Message](class string, a, b map[string]V, out *[]DiffEntry) {
@@ -556,7 +588,8 @@ func diffProtoMap[V googleproto.Message](class string, a, b map[string]V, out *[
 			continue
 		}
 		if !googleproto.Equal(a[k], bv) {
-			*out = append(*out, DiffEntry{Class: class, ID: k, Kind: "differs", Fields: differingFields(a[k], bv),
+			fields, tiers := differingFields(a[k], bv)
+			*out = append(*out, DiffEntry{Class: class, ID: k, Kind: "differs", Fields: fields, TiersOnlyDefaultAction: tiers,
 				Text: fmt.Sprintf("%s %q differs:\n   A: %v\n   B: %v", class, k, a[k], bv)})
 		}
 	}
@@ -575,7 +608,8 @@ func diffSingle(class string, a, b googleproto.Message, aNil, bNil bool, out *[]
 	case bNil:
 		*out = append(*out, DiffEntry{Class: class, Kind: "only-in-a", Text: fmt.Sprintf("%s: only in A: %v", class, a)})
 	case !googleproto.Equal(a, b):
-		*out = append(*out, DiffEntry{Class: class, Kind: "differs", Fields: differingFields(a, b), Text: fmt.Sprintf("%s: A=%v B=%v", class, a, b)})
+		fields, _ := differingFields(a, b)
+		*out = append(*out, DiffEntry{Class: class, Kind: "differs", Fields: fields, Text: fmt.Sprintf("%s: A=%v B=%v", class, a, b)})
 	}
 }
 
